@@ -125,7 +125,12 @@ def returns_none(tag: str, none_mod) -> bool:
     return bool(none_mod) and zlib.crc32(tag.encode()) % none_mod == 0
 
 
-def _body(fname: str, outputs: tuple, internal, kw: dict, none_mod=None):
+def pick_by_name(out, name):
+    """A custom output_picker: the function returns a dict name -> value."""
+    return out[name]
+
+
+def _body(fname: str, outputs: tuple, internal, kw: dict, none_mod=None, as_dict=False):
     s = f"{fname}(" + ",".join(f"{k}={fz(v)}" for k, v in sorted(kw.items())) + ")"
     if _LOG is not None:
         _LOG.append((fname, s))
@@ -148,6 +153,8 @@ def _body(fname: str, outputs: tuple, internal, kw: dict, none_mod=None):
         return tag
     if len(outputs) == 1:
         return None if returns_none(s, none_mod) else one(s)
+    if as_dict:
+        return {o: one(f"{s}.{o}") for o in outputs}
     return tuple(one(f"{s}.{o}") for o in outputs)
 
 
@@ -156,7 +163,7 @@ def make_callable(f: dict):
     params = list(f["params"])
     sig = ", ".join(params)
     kw = ", ".join(f"{p}={p}" for p in params)
-    src = f"def {f['name']}({sig}):\n    from rtc.progs import _body\n    return _body({f['name']!r}, {tuple(f['outputs'])!r}, {f.get('internal')!r}, dict({kw}), {f.get('none_mod')!r})\n"
+    src = f"def {f['name']}({sig}):\n    from rtc.progs import _body\n    return _body({f['name']!r}, {tuple(f['outputs'])!r}, {f.get('internal')!r}, dict({kw}), {f.get('none_mod')!r}, {bool(f.get('picker'))!r})\n"
     ns: dict = {}
     exec(src, ns)  # noqa: S102
     fn = ns[f["name"]]
@@ -182,6 +189,8 @@ def build_pipeline(prog: dict, order: list[int] | None = None, **pipeline_kw):
             kw["bound"] = dict(f["bound"])
         if f.get("cache") is not None:
             kw["cache"] = f["cache"]
+        if f.get("picker"):
+            kw["output_picker"] = pick_by_name
         funcs.append(PipeFunc(make_callable(f), output_name=outs if len(outs) > 1 else outs[0], **kw))
     return Pipeline(funcs, **pipeline_kw)
 
@@ -411,6 +420,8 @@ def gen_map_program(rng: random.Random, n_funcs: int = 2, max_rank: int = 2, all
         if allow_nomapspec and kind > 0.85:
             extra = [p for p in produced_plain if rng.random() < 0.5]
             funcs.append({"name": name, "params": params + extra, "outputs": outs, "spec": None})
+            if n_out > 1 and rng.random() < 0.5:
+                funcs[-1]["picker"] = True  # returns a dict, routed by a custom output_picker
             produced_plain += outs
             continue
         spec_in = []
@@ -503,5 +514,6 @@ def describe(prog: dict) -> dict:
                        "internal": f.get("internal"), "internal_via_map": f.get("internal_via_map", False),
                        "internal_bare_int": f.get("internal_bare_int", False), **({"defaults": f["defaults"]} if f.get("defaults") else {}),
                        **({"bound": f["bound"]} if f.get("bound") else {}),
-                       **({"none_mod": f["none_mod"]} if f.get("none_mod") else {})} for f in prog["funcs"]],
+                       **({"none_mod": f["none_mod"]} if f.get("none_mod") else {}),
+                       **({"picker": True} if f.get("picker") else {})} for f in prog["funcs"]],
             "inputs": prog["inputs"]}
